@@ -103,7 +103,7 @@ impl<'t> FSEDecoder<'t> {
             r is Err <==> old(self).table.accuracy_log == 0,
             r is Err ==> *final(bits) == *old(bits),
             r is Ok ==> final(self).state_ok() && final(bits).remaining() == old(bits).remaining() - old(self).table.accuracy_log,
-            old(bits).extra() <= final(bits).extra() <= old(bits).extra() + 64,
+            old(bits).extra() <= final(bits).extra() <= old(bits).extra() + 64, final(bits).src_len() == old(bits).src_len(),
 //@ghost at=start
         proof { lemma_shift_facts(); }
 //@end
@@ -114,7 +114,7 @@ impl<'t> FSEDecoder<'t> {
         ensures
             final(self).table == old(self).table, final(self).state_ok(), final(bits).wf(),
             final(bits).remaining() == old(bits).remaining() - old(self).state.num_bits,
-            old(bits).extra() <= final(bits).extra() <= old(bits).extra() + 64,
+            old(bits).extra() <= final(bits).extra() <= old(bits).extra() + 64, final(bits).src_len() == old(bits).src_len(),
 //@ghost at=start
         proof { lemma_shift_facts(); }
 //@end
